@@ -519,9 +519,31 @@ def r01_7(ctx: Ctx) -> None:
                    "outside the ancillary loop the gene registered is the gene evaluated", form=txt(call))
 
 
+def _sources_through_cache(func: ast.AST, name: str) -> List[ast.AST]:
+    """ values bound to `name`, looking through a per-key cache: `a, b, c = cache[k]` with `cache[k] = (x, y, z)`
+        makes the values of x the values of a """
+    direct = [v for v in bound_from(func, name) if not isinstance(v, ast.Subscript)]
+    if direct:
+        return direct
+    out: List[ast.AST] = []
+    for node in walk_local(func):
+        if isinstance(node, ast.Assign) and isinstance(node.targets[0], ast.Tuple) and isinstance(node.value, ast.Subscript):
+            names = [txt(e) for e in node.targets[0].elts]
+            if name not in names:
+                continue
+            index, cache = names.index(name), txt(node.value.value)
+            for store in walk_local(func):
+                if isinstance(store, ast.Assign) and isinstance(store.targets[0], ast.Subscript) \
+                        and txt(store.targets[0].value) == cache and isinstance(store.value, ast.Tuple) \
+                        and len(store.value.elts) == len(names):
+                    elem = store.value.elts[index]
+                    out += [v for v in bound_from(func, elem.id)] if isinstance(elem, ast.Name) else [elem]
+    return out
+
+
 def r01_9(ctx: Ctx) -> None:
     """ the evaluation context holds *every* gene in range, hits or not """
-    func = ctx.fn(CP, "apply_cluster_rules")
+    func = ctx.fn(CP, "apply_cluster_rules", inline=True)
     cfg = CFG(func)
     detects = [c for c in calls(func) if last_attr(c) == "detect"]
     if len(detects) != 1:
@@ -539,8 +561,7 @@ def r01_9(ctx: Ctx) -> None:
            form=txt(lookups[0])[:100] if lookups else "")
     lookup_names = {t.id for n in walk_local(func) if isinstance(n, ast.Assign) and n.value in lookups
                     for t in n.targets if isinstance(t, ast.Name)}
-    sources = [v for v in bound_from(func, name) if not (isinstance(v, ast.Subscript) and "info_by_range" in txt(v))]
-    sources = [v for v in sources if not isinstance(v, ast.Subscript)]
+    sources = _sources_through_cache(func, name)
     verdicts = []
     for src in sources:
         if isinstance(src, ast.DictComp):
@@ -577,7 +598,7 @@ def r01_9(ctx: Ctx) -> None:
            form=" | ".join(f for _, f in verdicts))
     res = arg_of(detects[0], 2, "results_by_id")
     if isinstance(res, ast.Name):
-        srcs = [v for v in bound_from(func, res.id) if not isinstance(v, ast.Subscript)]
+        srcs = _sources_through_cache(func, res.id)
         ok = bool(srcs) and all(isinstance(v, ast.DictComp) and "results_by_id" in txt(v) for v in srcs) or \
             any(isinstance(n, ast.Assign) and isinstance(n.targets[0], ast.Subscript) and txt(n.targets[0].value) == res.id
                 and "results_by_id" in txt(n.value) for n in walk_local(func))
